@@ -89,7 +89,9 @@ impl Program {
 
     pub fn link(&mut self) -> (Address, Arc<Vec<Error>>, Arc<Vec<Error>>) {
         match self.link.last() {
-            Some(Opcode::End) => {}
+            // A trailing line without code (REM, DATA) is a branch target whose address is
+            // the end of the code: it needs an End of its own.
+            Some(Opcode::End) if !self.link.has_line_at_end() => {}
             _ => {
                 if let Err(error) = self.link.push(Opcode::End) {
                     Arc::make_mut(&mut self.errors).push(error);
